@@ -13,7 +13,7 @@ def run : List String → String
     | none => "bad-op"
   | ["unpack", h] =>            -- model of the Go one-shot decoder
     match parseHex h with
-    | some s => let r := unpack s; if r.2 then "ok " ++ toHex r.1 else "err"
+    | some s => let r := goUnpack s; if r.2 then "ok " ++ toHex r.1 else "err"
     | none => "bad-op"
   | ["strict", h] =>            -- the spec decoder (oracle)
     match parseHex h with
